@@ -237,10 +237,12 @@ struct Config {
     merge: bool,
     map: String,
     raw: bool,
+    /// C08: `--async` directives (`+`-separated in the config string), in order
+    async_: Vec<String>,
 }
 
 fn parse_config(s: &str) -> Result<Config> {
-    let mut c = Config { own: "owning".into(), std: false, merge: false, map: "btree".into(), raw: false };
+    let mut c = Config { own: "owning".into(), std: false, merge: false, map: "btree".into(), raw: false, async_: Vec::new() };
     for kv in s.split(',') {
         let (k, v) = kv.split_once('=').ok_or_else(|| anyhow!("bad config {kv}"))?;
         match k {
@@ -249,6 +251,7 @@ fn parse_config(s: &str) -> Result<Config> {
             "merge" => c.merge = v == "1",
             "map" => c.map = v.into(),
             "raw" => c.raw = v == "1",
+            "async" => c.async_ = v.split('+').filter(|d| !d.is_empty()).map(|d| d.to_string()).collect(),
             _ => bail!("bad config key {k}"),
         }
     }
@@ -271,6 +274,9 @@ fn opts_of(c: &Config, prefix: &str) -> Result<wit_bindgen_rust::Opts> {
         o.map_type = Some("std::collections::HashMap".to_string());
     }
     o.raw_strings = c.raw;
+    for d in &c.async_ {
+        o.async_.push(d);
+    }
     Ok(o)
 }
 
@@ -572,6 +578,8 @@ struct ExportFn {
     method: String,
     sig: wit_bindgen_core::abi::WasmSignature,
     manifest: String,
+    /// C08: `Some(callback symbol)` when the export is async-lifted (`[async-lift]…` + `[callback][async-lift]…`)
+    async_cb: Option<String>,
 }
 
 fn c_ty(t: &WasmType) -> &'static str {
@@ -613,7 +621,7 @@ fn rust_ident(name: &str) -> String {
 }
 
 /// the text of a stub method: signature copied from the generated trait
-fn stub_method(m: &syn::TraitItemFn, key: &str) -> String {
+fn stub_method(m: &syn::TraitItemFn, key: &str, adrivers: &str) -> String {
     let sig = m.sig.to_token_stream().to_string();
     let mut shows = String::new();
     let mut drops = String::new();
@@ -629,8 +637,17 @@ fn stub_method(m: &syn::TraitItemFn, key: &str) -> String {
             }
         }
     }
+    // C08: an `async fn` stub runs its scripted plan between dropping the arguments and building the result:
+    // finish | yield_async().await | await an async import through its async driver ("both" scenario)
+    let plan = if m.sig.asyncness.is_some() {
+        format!(
+            "  loop {{ match ::bn_async::plan() {{ 0 => break, 1 => ::wit_bindgen::yield_async().await, 2 => {{ let bn_c = ::bn_rt::stub_ret(\"$bn#call\"); let (bn_i, bn_a) = ::bn_rt::harness(|| {{ let it = bn_c.items(); (match &it[0] {{ ::bn_rt::Term::I(n) => *n as usize, o => panic!(\"bn: bad call term {{o:?}}\") }}, it[1].clone()) }}); ::bn_rt::harness(move || drop(bn_c)); let bn_s = ({adrivers}[bn_i].drive)(bn_a).await; ::bn_async::sub_done(bn_s); }} o => panic!(\"bn: bad plan {{o}}\") }} }}\n"
+        )
+    } else {
+        String::new()
+    };
     format!(
-        "#[allow(unused_variables, dropping_copy_types, dropping_references)] {sig} {{\n  let bn_args = ::bn_rt::harness(|| {{ let mut s = String::from(\"(r\"); {shows}s.push(')'); s }});\n  ::bn_rt::stub_enter({key:?}, bn_args);\n  {drops}\n  let bn_t = ::bn_rt::stub_ret({key:?});\n  let bn_r = ::bn_rt::Build::build(&bn_t);\n  ::bn_rt::harness(move || drop(bn_t));\n  bn_r\n}}\n"
+        "#[allow(unused_variables, dropping_copy_types, dropping_references)] {sig} {{\n  let bn_args = ::bn_rt::harness(|| {{ let mut s = String::from(\"(r\"); {shows}s.push(')'); s }});\n  ::bn_rt::stub_enter({key:?}, bn_args);\n  {drops}\n{plan}  let bn_t = ::bn_rt::stub_ret({key:?});\n  let bn_r = ::bn_rt::Build::build(&bn_t);\n  ::bn_rt::harness(move || drop(bn_t));\n  bn_r\n}}\n"
     )
 }
 
@@ -649,6 +666,8 @@ struct ItemOut {
     glue: String,
     manifest: Vec<String>,
     table: String,
+    /// C08: the item binds something asynchronously (the batch then links bn-async and the `async` runtime feature)
+    any_async: bool,
 }
 
 fn world_key_name(r: &Resolve, k: &WorldKey) -> String {
@@ -759,12 +778,24 @@ fn emit_item(idx: usize, cfg: &Config, wit: &str) -> Result<(String, ItemOut)> {
             }
         }
         for f in funcs {
-            let sig = resolve.wasm_signature(AbiVariant::GuestExport, f);
             let core = f.legacy_core_export_name(iface_name.as_deref());
-            let sym = format!("{prefix}{core}");
+            // C08: an async-lifted export is recognised by the symbol the generator emitted for it
+            let async_sym = format!("{prefix}[async-lift]{core}");
+            let is_async = text.contains(&format!("export_name = \"{async_sym}\""));
+            let sig = resolve.wasm_signature(if is_async { AbiVariant::GuestExportAsync } else { AbiVariant::GuestExport }, f);
+            let sym = if is_async { async_sym } else { format!("{prefix}{core}") };
             if !text.contains(&format!("export_name = \"{sym}\"")) {
                 bail!("export symbol {sym} not found in generated bindings");
             }
+            let async_cb = if is_async {
+                let cb = format!("{prefix}[callback][async-lift]{core}");
+                if !text.contains(&format!("export_name = \"{cb}\"")) {
+                    bail!("callback symbol {cb} not found in generated bindings");
+                }
+                Some(cb)
+            } else {
+                None
+            };
             let post = format!("{prefix}cabi_post_{core}");
             let post = if text.contains(&format!("export_name = \"{post}\"")) { Some(post) } else { None };
             let (kind, res) = func_kind(f);
@@ -775,8 +806,12 @@ fn emit_item(idx: usize, cfg: &Config, wit: &str) -> Result<(String, ItemOut)> {
                     if kind == "constructor" { "new".to_string() } else { rust_ident(f.item_name()) },
                 ),
             };
-            let m = manifest_line(idx, "export", &sym, iface_name.as_deref().unwrap_or("$root"), &resolve, f, &sig, post.as_deref());
-            exports.push(ExportFn { key: sym, post, trait_path: modpath.clone(), trait_name, method, sig, manifest: m });
+            let mut m = manifest_line(idx, "export", &sym, iface_name.as_deref().unwrap_or("$root"), &resolve, f, &sig, post.as_deref());
+            if let Some(cb) = &async_cb {
+                m.pop();
+                write!(m, ",\"async\":true,\"callback\":{}}}", json_str(cb)).unwrap();
+            }
+            exports.push(ExportFn { key: sym, post, trait_path: modpath.clone(), trait_name, method, sig, manifest: m, async_cb });
         }
     }
     // stub impls, one nest per trait
@@ -814,7 +849,7 @@ fn emit_item(idx: usize, cfg: &Config, wit: &str) -> Result<(String, ItemOut)> {
             let Some(e) = fns.iter().find(|e| e.method == name) else {
                 bail!("trait method {}::{name} has no matching exported WIT function", t.name);
             };
-            body.push_str(&stub_method(m, &e.key));
+            body.push_str(&stub_method(m, &e.key, &format!("{root}::BN_ADRIVERS")));
         }
         if depth > 0 {
             writeln!(glue, "#[allow(unused_imports)] use {orig}::*;").unwrap();
@@ -831,6 +866,8 @@ fn emit_item(idx: usize, cfg: &Config, wit: &str) -> Result<(String, ItemOut)> {
         glue.push_str("export!(BnStub);\n");
     }
     // trampolines
+    let mut any_async = false;
+    let mut table_adrivers = String::new();
     let mut table_exports = String::new();
     for (k, e) in exports.iter().enumerate() {
         let ps: Vec<String> = e.sig.params.iter().enumerate().map(|(i, t)| format!("a{i}: {}", c_ty(t))).collect();
@@ -865,6 +902,16 @@ fn emit_item(idx: usize, cfg: &Config, wit: &str) -> Result<(String, ItemOut)> {
             None => "None".to_string(),
         };
         writeln!(table_exports, "  ::bn_rt::Export {{ key: {:?}, call: bn_call_{k}, post: {post} }},", e.key).unwrap();
+        if let Some(cb) = &e.async_cb {
+            // C08: the `[callback]` export of an async-lifted function, callable through `CALL|<callback key>|e0,e1,e2`
+            any_async = true;
+            writeln!(
+                glue,
+                "unsafe fn bn_cb_{k}(a: &[u64]) -> u64 {{ unsafe extern \"C\" {{ #[link_name = {cb:?}] fn f(a0: u32, a1: u32, a2: u32) -> u32; }} assert_eq!(a.len(), 3); (unsafe {{ f(a[0] as u32, a[1] as u32, a[2] as u32) }}) as u64 }}"
+            )
+            .unwrap();
+            writeln!(table_exports, "  ::bn_rt::Export {{ key: {cb:?}, call: bn_cb_{k}, post: None }},").unwrap();
+        }
         manifest.push(e.manifest.clone());
     }
     for (k, (key, sym)) in dtor_exports.iter().enumerate() {
@@ -965,9 +1012,12 @@ fn emit_item(idx: usize, cfg: &Config, wit: &str) -> Result<(String, ItemOut)> {
             WorldItem::Type { .. } => continue,
         };
         for f in funcs {
-            let sig = resolve.wasm_signature(AbiVariant::GuestImport, f);
             let module = iface_name.clone().unwrap_or_else(|| "$root".to_string());
-            let link = format!("{module}#{}", f.name);
+            // C08: an async-lowered import is recognised by the `[async-lower]` symbol the generator declared
+            let alink = format!("{module}#[async-lower]{}", f.name);
+            let is_async = seen.contains(&alink);
+            let sig = resolve.wasm_signature(if is_async { AbiVariant::GuestImportAsync } else { AbiVariant::GuestImport }, f);
+            let link = if is_async { alink } else { format!("{module}#{}", f.name) };
             if !seen.contains(&link) {
                 bail!("import {link} has no [verif-import] declaration in the generated bindings (hook H3 inactive?)");
             }
@@ -982,6 +1032,33 @@ fn emit_item(idx: usize, cfg: &Config, wit: &str) -> Result<(String, ItemOut)> {
                 ),
             };
             let args: Vec<String> = (0..f.params.len()).map(|i| format!("::bn_rt::Build::build(&items[{i}])")).collect();
+            if is_async {
+                // C08: (1) a blocking driver on the REAL `block_on`, dropping the call's future after the scripted
+                // number of `Pending`s; (2) an async driver for use inside async export stubs
+                any_async = true;
+                writeln!(
+                    glue,
+                    "fn bn_drive_{dk}(t: &::bn_rt::Term, _keep: bool) -> String {{ let items = t.items(); assert_eq!(items.len(), {}); let fut = {callee}({}); let lim = ::bn_async::PollLimited::new(fut, ::bn_async::budget()); let r = ::wit_bindgen::block_on(lim); let s = ::bn_rt::harness(|| match &r {{ Some(v) => {{ let mut s = String::new(); ::bn_rt::Show::show(v, &mut s); s }} None => String::from(\"cancelled\") }}); drop(r); ::bn_rt::release_keep(); s }}",
+                    f.params.len(),
+                    args.join(", ")
+                )
+                .unwrap();
+                writeln!(
+                    glue,
+                    "fn bn_adrive_{dk}(t: ::bn_rt::Term) -> ::core::pin::Pin<::std::boxed::Box<dyn ::core::future::Future<Output = String>>> {{ ::std::boxed::Box::pin(async move {{ let fut = {{ let items = t.items(); assert_eq!(items.len(), {}); {callee}({}) }}; ::bn_rt::harness(move || drop(t)); let r = fut.await; let s = ::bn_rt::harness(|| {{ let mut s = String::new(); ::bn_rt::Show::show(&r, &mut s); s }}); drop(r); s }}) }}",
+                    f.params.len(),
+                    args.join(", ")
+                )
+                .unwrap();
+                writeln!(table_drivers, "  ::bn_rt::Driver {{ key: {link:?}, drive: bn_drive_{dk} }},").unwrap();
+                writeln!(table_adrivers, "  ::bn_async::ADriver {{ key: {link:?}, drive: bn_adrive_{dk} }},").unwrap();
+                let mut m = manifest_line(idx, "import", &link, &module, &resolve, f, &sig, None);
+                m.pop();
+                m.push_str(",\"async\":true}");
+                manifest.push(m);
+                dk += 1;
+                continue;
+            }
             writeln!(
                 glue,
                 "fn bn_drive_{dk}(t: &::bn_rt::Term, keep: bool) -> String {{ let items = t.items(); assert_eq!(items.len(), {}); let r = {callee}({}); let mut s = ::bn_rt::harness(|| {{ let mut s = String::new(); ::bn_rt::Show::show(&r, &mut s); s }}); if keep {{ let k = ::bn_rt::stash(Box::new(r)); s = ::bn_rt::harness(|| format!(\"{{s}} #{{k}}\")); }} else {{ drop(r); }} ::bn_rt::release_keep(); s }}",
@@ -998,7 +1075,10 @@ fn emit_item(idx: usize, cfg: &Config, wit: &str) -> Result<(String, ItemOut)> {
         "pub static BN_ITEM: ::bn_rt::Item = ::bn_rt::Item {{ name: \"w{idx}\", exports: &[\n{table_exports}], drivers: &[\n{table_drivers}] }};\n"
     );
     glue.push_str(&table);
-    Ok((text, ItemOut { glue, manifest, table: String::new() }))
+    if any_async {
+        glue.push_str(&format!("pub static BN_ADRIVERS: &[::bn_async::ADriver] = &[\n{table_adrivers}];\n"));
+    }
+    Ok((text, ItemOut { glue, manifest, table: String::new(), any_async }))
 }
 
 fn main() -> Result<()> {
@@ -1013,6 +1093,7 @@ fn main() -> Result<()> {
     let spec = std::fs::read_to_string(&args[3])?;
     let mut manifest = String::new();
     let mut mods = Vec::new();
+    let mut batch_async = false;
     std::panic::set_hook(Box::new(|_| {}));
     for line in spec.lines().filter(|l| !l.trim().is_empty()) {
         let f: Vec<&str> = line.split(' ').collect();
@@ -1022,6 +1103,7 @@ fn main() -> Result<()> {
         let r = catch_unwind(AssertUnwindSafe(|| emit_item(idx, &cfg, &wit)));
         match r {
             Ok(Ok((text, out))) => {
+                batch_async |= out.any_async;
                 std::fs::write(dir.join("src").join(format!("w{idx}.rs")), format!("{text}\n{}\n{}", out.glue, out.table))?;
                 for m in out.manifest {
                     manifest.push_str(&m);
@@ -1051,10 +1133,14 @@ fn main() -> Result<()> {
     std::fs::write(dir.join("src/main.rs"), main)?;
     let verif = std::env::var("VERIF_ROOT").unwrap_or_else(|_| "/verif".to_string());
     let repo = std::env::var("VERIF_REPO").unwrap_or_else(|_| "/repo".to_string());
+    // C08: batches with async bindings link the async half of the runtime (built with hook H1 on: the caller
+    // sets RUSTFLAGS=--cfg bytecodealliance_wit_bindgen_verif) and bn-async (the canonical built-ins as events)
+    let async_dep = if batch_async { format!("bn-async = {{ path = \"{verif}/harness/bind-native/async-rt\" }}\n") } else { String::new() };
+    let async_feat = if batch_async { ", \"async\"" } else { "" };
     std::fs::write(
         dir.join("Cargo.toml"),
         format!(
-            "[package]\nname = \"bn-batch\"\nversion = \"0.0.0\"\nedition = \"2024\"\n\n[workspace]\n\n[dependencies]\nbn-rt = {{ path = \"{verif}/harness/bind-native/rt\" }}\nwit-bindgen = {{ path = \"{repo}/crates/guest-rust\", default-features = false, features = [\"realloc\", \"std\", \"bitflags\"] }}\n\n[profile.dev]\nopt-level = 0\ndebug = false\nincremental = false\n"
+            "[package]\nname = \"bn-batch\"\nversion = \"0.0.0\"\nedition = \"2024\"\n\n[workspace]\n\n[dependencies]\nbn-rt = {{ path = \"{verif}/harness/bind-native/rt\" }}\n{async_dep}wit-bindgen = {{ path = \"{repo}/crates/guest-rust\", default-features = false, features = [\"realloc\", \"std\", \"bitflags\"{async_feat}] }}\n\n[profile.dev]\nopt-level = 0\ndebug = false\nincremental = false\n"
         ),
     )?;
     std::fs::write(dir.join("manifest.jsonl"), manifest)?;
